@@ -13,6 +13,7 @@
                 (the last list = the pair returned by every step; `BasePartition` has no block_id:
                  that field is `-`)
   * dfa         `<n> <k> [final flags] rows` with rows = `;`-joined `[δ(s,0),…,δ(s,k-1)]`
+                (`-` if there is no state)
 
   ops   minimize <A> <A'>          -> ok                 `A'` is what the real `minimize()` produced
                                                           from `A` (`PANIC` if it panicked).  The
@@ -33,11 +34,34 @@
                                              partition up to renumbering
         bpart <n> <script>         -> dump   BasePartition (only `R` steps)
         part <n> <script>          -> dump   Partition
+
+  LITERAL comparison with the line-by-line model of `minimizer.rs` / `fast_sets.rs` /
+  `StateMapping::from_partition` / `Automaton::minimize` (Model/Hopcroft.lean, Model/FastSet.lean):
+        hopcroft_blocks <n> <k> <fin> <rows> -> `[block_id(s) for s in 0..n]|[elems of block 0];[block 1];..`
+                                             the `Partition` returned by `Minimizer::new(..).refine()`,
+                                             every block in stored (segment) order; `PANIC`
+        hopcroft_state <n> <k> <fin> <rows>  -> `<state after new>#<state after refine>` with
+                                             state = `M<blocks 1..>|P<pc 0>/<pc 1>/..|A<active>|I<inactive>`
+                                             (everything `impl Display for Minimizer` prints: main
+                                             partition, `pred_classes[c]` for every letter as `;`-joined
+                                             element lists of blocks 1.., the active / inactive splitters
+                                             `[block:char:class,..]` in the order of the splitter lists)
+        hopcroft_trace <n> <k> <fin> <rows>  -> `<blocks 1.. initially>#<round>#<round>..`,
+                                             round = `S<block>:<char>:<class>|[pred(B,c) in stored order]|<blocks 1.. after>`
+                                             (what `refine_and_trace` prints: the splitter picked in
+                                             every round, its pred class, the partition afterwards)
+        minimize_literal <A>       -> A'     the automaton after the real `minimize()`, literally
+                                             (state numbering, representatives, counts) = the model's
+                                             `Automaton.minimize`
+        fastset <max> <script>     -> `card|[iter()]|[results of the C steps]|[contains(x) for x in 0..max]`
+                                             script = `-` or `;`-joined `I<x>` insert, `R<x>` remove,
+                                             `C<x>` contains, `Z` reset
 -/
 import Driver.Proto
 import Driver.FamAutomaton
 import SmtModel.Model.Minimize
 import SmtModel.Model.Partition
+import SmtModel.Model.Hopcroft
 
 namespace Driver.FamMinimize
 open Smt Driver Smt.Minimize
@@ -79,7 +103,8 @@ def verdict (A A' : Automaton) : String :=
 
 /-! ### abstract DFA for the `Minimizer` hook -/
 
-def rRows (s : String) : Option (List (List Nat)) := (s.splitOn ";").mapM rNats
+def rRows (s : String) : Option (List (List Nat)) :=
+  if s == "-" then some [] else (s.splitOn ";").mapM rNats
 
 def tableDelta (rows : Array (Array Nat)) (s c : Nat) : Nat := (rows.getD s #[]).getD c 0
 
@@ -133,6 +158,82 @@ def runPart (n : Nat) (script : List PStep) : Option String := do
   let ids ← mapOpt p.blockIdOf (List.range p.sizeOf)
   dumpBase p.base (pNats ids) rs
 
+/-! ### Hopcroft, literally (Model/Hopcroft.lean) -/
+
+/-- the closures the harness passes: `|s, c| rows[s][c]` and `|s| fin[s]` (panic = `none`) -/
+def absDelta (rows : Array (Array Nat)) (s c : Nat) : Option Nat :=
+  match rows[s]? with
+  | none => none
+  | some r => r[c]?
+
+def absFinal (fin : Array Bool) (s : Nat) : Option Bool := fin[s]?
+
+/-- `;`-joined element lists of the blocks `from ..` of a `BasePartition` (as its `Display`) -/
+def pBlocks (p : BasePartition) (start : Nat) : Option String := do
+  let bs ← mapOpt p.blockElements ((List.range p.numBlocks).drop start)
+  pure (";".intercalate (bs.map pNats))
+
+def pPartitionLit (p : Partition) : Option String := do
+  let ids ← mapOpt p.blockIdOf (List.range p.sizeOf)
+  let bs ← pBlocks p.base 0
+  pure s!"{pNats ids}|{bs}"
+
+def pSplitter (s : Hopcroft.Splitter) : String := s!"{s.block}:{s.char}:{s.cls}"
+
+/-- mirror of `impl Display for Minimizer` -/
+def pMinimizerState (m : Hopcroft.Minimizer) : Option String := do
+  let main ← pBlocks m.mainPartition.base 1
+  let pcs ← mapOpt (fun p => pBlocks p 1) m.predClasses
+  let all : List Hopcroft.Splitter :=
+    (m.splitters.list.zipIdx.map (fun (l, i) => l.items.map (fun s => s.toSplitter i))).flatten
+  let act := all.filter (·.active)
+  let inact := all.filter (fun s => !s.active)
+  pure s!"M{main}|P{"/".intercalate pcs}|A{pList pSplitter act}|I{pList pSplitter inact}"
+
+/-- mirror of `refine_and_trace` (the same loop as `refine`, printing every round) -/
+def traceLoop (δ : Nat → Nat → Option Nat) : Nat → Hopcroft.Minimizer → List String → Option (List String)
+  | 0, _, _ => none
+  | fuel + 1, m, acc => do
+    let idx ← m.mainPartition.index
+    if idx < m.numStates then
+      match ← Hopcroft.pickSplitter m with
+      | (none, _) => pure acc
+      | (some s, m') =>
+        let pc ← m'.predClasses[s.char]?
+        let pre ← pc.blockElements s.cls
+        let m'' ← Hopcroft.refineWithSplitter δ m' s
+        let after ← pBlocks m''.mainPartition.base 1
+        traceLoop δ fuel m'' (acc ++ [s!"S{pSplitter s}|{pNats pre}|{after}"])
+    else pure acc
+
+/-! ### FastSet scripts -/
+
+inductive FStep where
+  | ins (x : Nat) | rem (x : Nat) | has (x : Nat) | reset
+
+def rFStep (s : String) : Option FStep :=
+  let body := sDrop s 1
+  match s.front with
+  | 'I' => (rNat body).map .ins
+  | 'R' => (rNat body).map .rem
+  | 'C' => (rNat body).map .has
+  | 'Z' => if body.isEmpty then some .reset else none
+  | _ => none
+
+def rFScript (s : String) : Option (List FStep) :=
+  if s == "-" then some [] else (s.splitOn ";").mapM rFStep
+
+def runFastSet (max : Nat) (script : List FStep) : Option String := do
+  let (set, rs) ← script.foldlM (fun (acc : FastSet × List Bool) st =>
+    match st with
+    | .ins x => do let s ← acc.1.insert x; pure (s, acc.2)
+    | .rem x => do let s ← acc.1.remove x; pure (s, acc.2)
+    | .has x => do let b ← acc.1.contains x; pure (acc.1, acc.2 ++ [b])
+    | .reset => pure (acc.1.reset, acc.2)) (FastSet.new max, [])
+  let it ← set.iter
+  let all ← mapOpt set.contains (List.range max)
+  pure s!"{set.card}|{pNats it}|{pList pBool rs}|{pList pBool all}"
+
 /-! ### dispatch -/
 
 def handle (op : String) (args : List String) : Option Reply :=
@@ -168,6 +269,38 @@ def handle (op : String) (args : List String) : Option Reply :=
       let v := if ids.length == n && canon ids == m then "ok"
                else s!"REJECTED:moore-partition={pNats m}"
       okSpec v v
+  | "hopcroft_blocks", [n, k, fin, rows] => do
+      let n ← rNat n; let k ← rNat k; let fin ← rListWith rBool fin
+      let rows ← rRows rows
+      let tbl : Array (Array Nat) := (rows.map List.toArray).toArray
+      ok (pPanic id ((Hopcroft.run (absDelta tbl) (absFinal fin.toArray) n k).bind pPartitionLit))
+  | "hopcroft_state", [n, k, fin, rows] => do
+      let n ← rNat n; let k ← rNat k; let fin ← rListWith rBool fin
+      let rows ← rRows rows
+      let tbl : Array (Array Nat) := (rows.map List.toArray).toArray
+      ok (pPanic id (do
+        let m ← Hopcroft.new (absDelta tbl) (absFinal fin.toArray) n k
+        let s0 ← pMinimizerState m
+        let m' ← Hopcroft.refine (absDelta tbl) m
+        let s1 ← pMinimizerState m'
+        pure s!"{s0}#{s1}"))
+  | "hopcroft_trace", [n, k, fin, rows] => do
+      let n ← rNat n; let k ← rNat k; let fin ← rListWith rBool fin
+      let rows ← rRows rows
+      let tbl : Array (Array Nat) := (rows.map List.toArray).toArray
+      ok (pPanic id (do
+        let m ← Hopcroft.new (absDelta tbl) (absFinal fin.toArray) n k
+        let p0 ← pBlocks m.mainPartition.base 1
+        let rounds ← traceLoop (absDelta tbl) (Hopcroft.refineFuel n k) m []
+        pure ("#".intercalate (p0 :: rounds))))
+  | "minimize_literal", [A] => do
+      let A ← rAut A
+      ok (match A.minimize with
+        | some A' => pAut A'
+        | none => "PANIC")
+  | "fastset", [max, script] => do
+      let max ← rNat max; let script ← rFScript script
+      ok (pPanic id (runFastSet max script))
   | "bpart", [n, script] => do
       let n ← rNat n; let script ← rScript script
       ok (pPanic id (runBase n script))
